@@ -1,7 +1,7 @@
 //! C11: clone is equal and independent; == ignores layout, capacity and hasher state.
 
 use crate::ctx::Ctx;
-use crate::elem::{self, Elem, B1, L200, P8, T24};
+use crate::elem::{self, Elem, B1, L200, P8, T24, Z};
 use crate::plan::KeyRef;
 use crate::states::{build, Coll, MapC, SetC, Spec, TableC, RECIPES};
 use crate::util::{Json, Rng};
@@ -177,6 +177,53 @@ fn set_eq_case<T: Elem>(c: &mut Ctx, a_spec: &Spec, b_spec: &Spec) {
     }
 }
 
+/// Zero-sized elements with observable Clone/Drop: a clone must create (and later drop) one element per stored element.
+fn zst_clone(c: &mut Ctx, rng: &mut Rng) {
+    use crate::ckalloc::CkAlloc;
+    let n = *rng.pick(&[0usize, 1, 3, 8, 16, 17, 40]);
+    let h = rng.next();
+    let mut t: hashbrown::HashTable<Z, CkAlloc> = hashbrown::HashTable::new_in(CkAlloc);
+    for _ in 0..n {
+        t.insert_unique(h, Z::make(0, 0), |_| h);
+    }
+    for which in 0..2 {
+        c.evaluations += 1;
+        c.sig_parts(&[6, which, n.min(20) as u64]);
+        let r0 = elem::reg_counters();
+        let calls0 = crate::fuse::count(crate::fuse::Class::Clone);
+        let t2 = if which == 0 {
+            t.clone()
+        } else {
+            let mut x: hashbrown::HashTable<Z, CkAlloc> = hashbrown::HashTable::with_capacity_in(rng.usize_below(30), CkAlloc);
+            for _ in 0..rng.below(5) {
+                x.insert_unique(h, Z::make(0, 0), |_| h);
+            }
+            let before = elem::reg_counters();
+            let pre = x.len() as u64;
+            x.clone_from(&t);
+            crate::check!(elem::reg_counters().zst_dropped - before.zst_dropped == pre, "HashTable<Z>::clone_from dropped {} of {} old target elements", elem::reg_counters().zst_dropped - before.zst_dropped, pre);
+            x
+        };
+        let made = elem::reg_counters().zst_made - r0.zst_made - if which == 1 { 0 } else { 0 };
+        let calls = crate::fuse::count(crate::fuse::Class::Clone) - calls0;
+        crate::check!(calls == n as u64, "HashTable<Z> ({} elements): Clone::clone was called {} times", n, calls);
+        crate::check!(t2.len() == n && t2.iter().count() == n, "HashTable<Z> clone has len {} / yields {} for {}", t2.len(), t2.iter().count(), n);
+        let _ = made;
+        let d0 = elem::reg_counters().zst_dropped;
+        drop(t2);
+        crate::check!(elem::reg_counters().zst_dropped - d0 == n as u64, "dropping the HashTable<Z> clone dropped {} elements, {} expected", elem::reg_counters().zst_dropped - d0, n);
+    }
+    // HashSet<Z> / HashMap<Z, T24>: at most one element
+    let bh = crate::plan::PlanBH::new(crate::plan::Plan::Mixed, rng.next());
+    let mut s: hashbrown::HashSet<Z, crate::plan::PlanBH, CkAlloc> = hashbrown::HashSet::with_hasher_in(bh, CkAlloc);
+    s.insert(Z::make(0, 0));
+    let calls0 = crate::fuse::count(crate::fuse::Class::Clone);
+    let s2 = s.clone();
+    crate::check!(crate::fuse::count(crate::fuse::Class::Clone) - calls0 == 1, "HashSet<Z>::clone did not clone its element");
+    crate::check!(s2 == s, "HashSet<Z> clone != source");
+    c.evaluations += 1;
+}
+
 pub fn run(c: &mut Ctx) {
     c.run_scenarios(|c, idx, rng| {
         let n = RECIPES.len() as u64;
@@ -201,6 +248,7 @@ pub fn run(c: &mut Ctx) {
             5 => {
                 table_clone::<T24>(c, &sspec);
                 table_clone::<P8>(c, &tspec);
+                zst_clone(c, rng);
             }
             6 => eq_case::<T24, T24>(c, &tspec, &sspec, rng),
             _ => eq_case::<P8, B1>(c, &tspec, &sspec, rng),
